@@ -345,6 +345,37 @@ theorem parseBlock_serBlock (b : Block) (hh : b.header.WF) (hn : b.txs.length < 
   rw [List.append_assoc] at this
   rw [this]
 
+/-- T5b: blocks in the direction the property is worded - for every byte string, what the strict block
+reader accepts re-serialises to exactly the bytes read (header, count and every transaction). -/
+theorem serBlock_parseBlockS (bs : Bytes) (b : Block) (r : Bytes) (h : parseBlockS bs = some (b, r)) :
+    serBlock b ++ r = bs := by
+  unfold parseBlockS at h
+  split at h
+  · simp at h
+  · rename_i hd r1 e1
+    split at h
+    · simp at h
+    · rename_i txs r2 e2
+      simp only [Option.some.injEq, Prod.mk.injEq] at h
+      obtain ⟨h1, h2⟩ := h
+      subst h1; subst h2
+      obtain ⟨a1, _⟩ := Btc.serHeader_readHeader _ _ _ e1
+      have a2 := readListS_some parseTxS serTx (fun bs t r h => serTx_parseTxS bs t r h) _ _ _ e2
+      simp only [serBlock, List.append_assoc]
+      have : csE txs.length ++ ((txs.map serTx).flatten ++ r2) = r1 := by simpa [List.append_assoc] using a2
+      rw [this, a1]
+
+/-- ... and it accepts every serialisation of a block of well-formed transactions -/
+theorem parseBlockS_serBlock (b : Block) (hh : b.header.WF) (hn : b.txs.length < 2^64)
+    (ht : ∀ t ∈ b.txs, t.WF) (r : Bytes) : parseBlockS (serBlock b ++ r) = some (b, r) := by
+  unfold parseBlockS serBlock
+  simp only [List.append_assoc]
+  rw [Btc.readHeader_serHeader _ hh]
+  simp only
+  have := readListS_ser parseTxS serTx b.txs hn (fun t h r => parseTxS_serTx t (ht t h) r) r
+  rw [List.append_assoc] at this
+  rw [this]
+
 /-- T6: the library's `Block.target` formula agrees with consensus `SetCompact` whenever the
 exponent is at least 3 and the sign bit is clear (every block of a valid chain). -/
 theorem targetImpl_eq_compactTarget (bits : Nat) (h3 : 3 ≤ bits / 2^24) (hs : bits % 2^24 < 2^23) :
